@@ -135,6 +135,8 @@ func c06Scenario(c c06Cfg) *mc.Scenario {
 						op.Key, op.Kind, op.Exp = "/r/w/p", rUpdOK, base+3
 					case wDeleteP:
 						op.Key, op.Kind = "/r/w/p", rDel0
+					case wUpdStaleP:
+						op.Key, op.Kind, op.Exp = "/r/w/p", rUpdStale, base-3
 					}
 					w.do(op)
 					if op.OK && op.Key == "/r/w/x" && !op.Kind.isDelete() {
@@ -209,7 +211,7 @@ func c06Scenario(c c06Cfg) *mc.Scenario {
 func c06Configs(tier string) []c06Cfg {
 	out := []c06Cfg{
 		{hx.Mem, [][]wop{{wCreateX, wUpdateX, wDeleteX}}, false},
-		{hx.Mem, [][]wop{{wUpdateP, wDupP, wCreateOut}}, false},
+		{hx.Mem, [][]wop{{wUpdStaleP, wUpdateP, wDupP, wCreateOut}}, false},
 		{hx.Mem, [][]wop{{wDeleteP, wCreateX}}, true},
 		{hx.Mem, [][]wop{{wCreateX, wUpdateX}}, true},
 		{hx.Mem, [][]wop{{wCreateX}, {wDeleteP}}, false},
